@@ -90,6 +90,39 @@ def dynamics_with_controls(inp):
     return r
 
 
+def float_time_controls(inp):
+    """compute_dynamics (closed system) with controls given by FLOAT time, pre and post, for start_time in {0, 2, -0.5}: the control acts
+    at the step round((t - start_time)/dt), on the stated side of the measurement"""
+    import oqupy
+    from scipy.linalg import expm
+    sx, sz = oqupy.operators.sigma('x'), oqupy.operators.sigma('z')
+    H = 0.4 * sz + 0.2 * sx
+    L = oqupy.System(H).liouvillian()
+    kick = oqupy.operators.left_right_super(expm(-0.5j * sx), expm(0.5j * sx))
+    rho0 = np.array([[0.8, 0.1 + 0.1j], [0.1 - 0.1j, 0.2]])
+    dt, steps = 0.1, 6
+    bad = []
+    for t0 in (0.0, 2.0, -0.5):
+        for post in (False, True):
+            for at in (2, 4):
+                c = oqupy.Control(2)
+                c.add_single(float(t0 + at * dt), kick, post=post)
+                d = oqupy.compute_dynamics(oqupy.System(H), initial_state=rho0, control=c, start_time=t0, dt=dt, num_steps=steps, progress_type='silent')
+                v = rho0.reshape(-1).astype(complex)
+                want = []
+                for k in range(steps + 1):
+                    if k == at and not post:
+                        v = kick @ v
+                    want.append(v.reshape(2, 2).copy())
+                    if k == at and post:
+                        v = kick @ v
+                    v = expm(L * dt) @ v
+                dev = float(np.abs(np.array(d.states) - np.array(want)).max())
+                if dev > 1e-9:
+                    bad.append({'start_time': t0, 'control at time': t0 + at * dt, 'post': post, 'max deviation': dev})
+    return {'violates': bool(bad), 'detail': bad[:4]}
+
+
 def tebd_controls(inp):
     """PT-TEBD on an uncoupled two-site chain with pre- and post-measurement chain controls (also registered out of
     chronological order): recorded states against direct propagation of each site"""
@@ -141,4 +174,4 @@ def tebd_controls(inp):
 
 
 # thorough tier (bounded native sweeps): (function, inputs, obligation of the open finding it reproduces or None)
-THOROUGH = [('chain_order', {}, None), ('control_order', {}, None), ('dynamics_with_controls', {}, None), ('tebd_controls', {}, None)]
+THOROUGH = [('chain_order', {}, None), ('control_order', {}, None), ('dynamics_with_controls', {}, None), ('tebd_controls', {}, None), ('float_time_controls', {}, None)]
